@@ -115,31 +115,43 @@ def check_graph(res, scratch, ids, choice, variant, maxlen, gi, do_findpath):
     sides = g.side_set()
     results = {}
     paths = list(all_paths(ids, maxlen))
-    for steps in paths:
-        p = rgfa.steps_str(steps)
-        res.evaluations += 1
-        walk = g.is_walk(steps, sides)
-        expect = g.spell(steps) if walk else ""
-        try:
-            got = G.extract_path(p)
-        except Exception as e:
-            res.fail(
-                f"C14/exception:{type(e).__name__}",
-                f"extract_path({p}) raised {type(e).__name__}: {e}",
-                {"gfa": text, "mode": "extract", "path": p},
-            )
-            continue
-        results[p] = got
-        if len(steps) >= 2:
-            res.nt(fw.h64(text + "|" + p))
-            res.count("walks" if walk else "nonwalks")
-        if got != expect:
-            kind = "walk-rejected" if (walk and got == "") else ("nonwalk-accepted" if not walk else "wrong-sequence")
-            res.fail(
-                f"C14/{kind}",
-                f"extract_path({p}) returned {got!r}, the model says {'walk' if walk else 'not a walk'} -> {expect!r}",
-                {"gfa": text, "mode": "extract", "path": p},
-            )
+    # the queries are made on one graph object, first in enumeration order, then in reverse order on a second
+    # object: an answer must not depend on what was asked before (a failing case records its query history)
+    for pass_no, (obj, plist) in enumerate(((G, paths), (None, paths[::-1]))):
+        if obj is None:
+            o2 = fw.guarded(GFA, path)
+            if o2.kind != "ok":
+                break
+            obj = o2.value
+        history = []
+        for steps in plist:
+            p = rgfa.steps_str(steps)
+            history.append(p)
+            res.evaluations += 1
+            walk = g.is_walk(steps, sides)
+            expect = g.spell(steps) if walk else ""
+            try:
+                got = obj.extract_path(p)
+            except Exception as e:
+                res.fail(
+                    f"C14/exception:{type(e).__name__}",
+                    f"extract_path({p}) raised {type(e).__name__}: {e}",
+                    {"gfa": text, "mode": "extract", "path": p, "history": history[-400:]},
+                )
+                continue
+            if pass_no == 0:
+                results[p] = got
+                if len(steps) >= 2:
+                    res.nt(fw.h64(text + "|" + p))
+                    res.count("walks" if walk else "nonwalks")
+            if got != expect:
+                kind = "walk-rejected" if (walk and got == "") else ("nonwalk-accepted" if not walk else "wrong-sequence")
+                res.fail(
+                    f"C14/{kind}",
+                    f"extract_path({p}) returned {got!r} (query {len(history)} on this graph object), the model says "
+                    f"{'walk' if walk else 'not a walk'} -> {expect!r}",
+                    {"gfa": text, "mode": "extract", "path": p, "history": history[-400:]},
+                )
     # reversal symmetry, checked directly on the implementation's own answers
     for steps in paths:
         p = rgfa.steps_str(steps)
@@ -147,10 +159,12 @@ def check_graph(res, scratch, ids, choice, variant, maxlen, gi, do_findpath):
         if p in results and r in results:
             a, b = results[p], results[r]
             if (a == "") != (b == "") or (a != "" and b != rgfa.revcomp(a)):
+                allp = [rgfa.steps_str(x) for x in paths]
+                upto = max(allp.index(p), allp.index(r)) + 1
                 res.fail(
                     "C14/reverse-asymmetry",
                     f"{p} -> {a!r} but reversed walk {r} -> {b!r}",
-                    {"gfa": text, "mode": "extract", "path": p, "also": r},
+                    {"gfa": text, "mode": "extract", "path": p, "also": r, "history": allp[:upto][-400:]},
                 )
     if do_findpath:
         res.sample({"gfa": text.split("\n")[:-1], "paths": [rgfa.steps_str(s) for s in paths[:6]] + ["..."], "n_paths": len(paths)})
@@ -268,6 +282,14 @@ def run_shard(spec, tier, scratch):
             for steps in all_paths(ids, 2):
                 for fasta in (False, True):
                     check_find_path(res, scratch, g, g.text(), [rgfa.steps_str(steps)], fasta, single=True)
+        # every path file of <=3 lines over a 3-path alphabet (walk, non-walk, single node), repeats included
+        g = rgfa.Graph.parse(cli_case()[0])
+        alpha = [">s1>s2", ">s2>s1", "<s1"]
+        for k in (1, 2, 3):
+            for plist in itertools.product(alpha, repeat=k):
+                for fasta in (False, True):
+                    check_find_path(res, scratch, g, g.text(), list(plist), fasta)
+                    res.count("path_files_with_repeats" if len(set(plist)) < len(plist) else "path_files_distinct")
         cli_binding(res, scratch)
     return res
 
@@ -285,25 +307,32 @@ def replay(case, scratch):
             res.fail(f"C14/load:{out.sig()}", out.brief(), case)
             return res.failures
         G = out.value
+        answers = {}
+        for p in list(case.get("history") or []) + [case.get("path"), case.get("also")]:
+            if not p or p in answers:
+                continue
+            try:
+                answers[p] = G.extract_path(p)  # re-creates the query history on this object
+            except Exception as e:
+                answers[p] = e
         for p in [case.get("path"), case.get("also")]:
             if not p:
                 continue
             steps = rgfa.parse_steps(p)
             walk = g.is_walk(steps)
             expect = g.spell(steps) if walk else ""
-            try:
-                got = G.extract_path(p)
-            except Exception as e:
-                res.fail(f"C14/exception:{type(e).__name__}", str(e), case)
+            got = answers[p]
+            if isinstance(got, Exception):
+                res.fail(f"C14/exception:{type(got).__name__}", str(got), case)
                 continue
             if got != expect:
                 kind = "walk-rejected" if (walk and got == "") else ("nonwalk-accepted" if not walk else "wrong-sequence")
                 res.fail(f"C14/{kind}", f"extract_path({p}) -> {got!r}, expected {expect!r}", case)
         if case.get("also"):
-            a = G.extract_path(case["path"])
-            b = G.extract_path(case["also"])
-            if (a == "") != (b == "") or (a != "" and b != rgfa.revcomp(a)):
-                res.fail("C14/reverse-asymmetry", f"{a!r} vs {b!r}", case)
+            a, b = answers[case["path"]], answers[case["also"]]
+            if isinstance(a, str) and isinstance(b, str):
+                if (a == "") != (b == "") or (a != "" and b != rgfa.revcomp(a)):
+                    res.fail("C14/reverse-asymmetry", f"{a!r} vs {b!r}", case)
     elif case["mode"] == "cli":
         cli_binding(res, scratch, case["gfa"], case["paths"], (case["fasta"],))
     else:
